@@ -271,9 +271,53 @@ async fn held_full(m: &Member, ks: &str, id: u64) -> Option<(u64, bool, String)>
 }
 
 /// C01 at system level: real nodes, operations issued at level None through the public handles, so that the other
-/// nodes learn of them only through the real task distributor (and, if it gets to run, the real poller). Afterwards
-/// every node's storage must hold the same timestamp, the same kind and the same bytes for every document.
+/// nodes learn of them only through the real task distributor (and, if it gets to run, the real poller). Operations on
+/// one document are issued at least 12 ms apart (three ticks of the hybrid clocks, which all read the same wall clock),
+/// so the operation issued last is the one with the greatest timestamp: afterwards every node's storage must hold, per
+/// keyspace and document, exactly that operation - its bytes if it was a put, a tombstone or nothing if it was a delete -
+/// with the same timestamp everywhere.
 pub async fn record_converge() {
+    use datacake_eventual_consistency::ReplicatedKeyspaceHandle;
+    type H = ReplicatedKeyspaceHandle<FaultyStore>;
+    type Expect = std::collections::BTreeMap<(&'static str, u64), Option<String>>;
+    fn dig(bytes: &[u8]) -> String {
+        format!("{}:{:x}", bytes.len(), bytes.iter().fold(0xcbf29ce484222325u64, |h, b| (h ^ *b as u64).wrapping_mul(0x100000001b3)))
+    }
+    async fn gap() {
+        tokio::time::sleep(Duration::from_millis(12)).await;
+    }
+    static OPS: std::sync::Mutex<Vec<Value>> = std::sync::Mutex::new(vec![]);
+    fn log(ks: &str, id: u64, kind: &str, d: &str) {
+        OPS.lock().unwrap().push(json!({"ev": "op", "ks": ks, "id": id, "kind": kind, "dig": d}));
+    }
+    async fn put(h: &H, e: &mut Expect, ks: &'static str, id: u64, bytes: &[u8]) {
+        h.put(id, bytes.to_vec(), Consistency::None).await.expect("put");
+        e.insert((ks, id), Some(dig(bytes)));
+        log(ks, id, "put", &dig(bytes));
+        gap().await;
+    }
+    async fn put_many(h: &H, e: &mut Expect, ks: &'static str, docs: Vec<(u64, &[u8])>) {
+        h.put_many(docs.iter().map(|(i, b)| (*i, b.to_vec())).collect::<Vec<_>>(), Consistency::None).await.expect("put_many");
+        for (i, b) in docs {
+            e.insert((ks, i), Some(dig(b)));      // a document named twice: the last version stays
+            log(ks, i, "put", &dig(b));
+        }
+        gap().await;
+    }
+    async fn del(h: &H, e: &mut Expect, ks: &'static str, id: u64) {
+        h.del(id, Consistency::None).await.expect("del");
+        e.insert((ks, id), None);
+        log(ks, id, "del", "");
+        gap().await;
+    }
+    async fn del_many(h: &H, e: &mut Expect, ks: &'static str, ids: Vec<u64>) {
+        h.del_many(ids.clone(), Consistency::None).await.expect("del_many");
+        for i in ids {
+            e.insert((ks, i), None);
+            log(ks, i, "del", "");
+        }
+        gap().await;
+    }
     let out = arg_or("--out", "converge.ndjson");
     let rounds: u64 = arg_or("--rounds", "3").parse().unwrap();
     let mut f = std::io::BufWriter::new(std::fs::File::create(&out).expect("create trace"));
@@ -287,64 +331,80 @@ pub async fn record_converge() {
         let a2 = members[0].store.handle_with_keyspace(KS2);
         let b2 = members[1].store.handle_with_keyspace(KS2);
         let b3 = members[1].store.handle_with_keyspace(KS3);
-        let mut ids: Vec<(&str, u64)> = vec![];
+        // the third node only deletes in the first keyspace and only writes in the second one (same document ids), so
+        // that the batches its distributor builds hold removals of one keyspace and modifications of another
+        let c = members[2].store.handle_with_keyspace(KS);
+        let c2 = members[2].store.handle_with_keyspace(KS2);
+        let mut e: Expect = Default::default();
         for r in 0..rounds {
             let base = 5000 + r * 100;
-            let lv = Consistency::None;
             // the same id twice in one bulk write (one timestamp for the whole call): every node must end with the same bytes
-            a.put_many(vec![(base + 1, b"first revision".to_vec()), (base + 1, b"second revision".to_vec())], lv).await.expect("put_many");
-            a.put_many(vec![(base + 2, b"a".to_vec()), (base + 3, b"b".to_vec()), (base + 2, b"c".to_vec())], lv).await.expect("put_many");
+            put_many(&a, &mut e, KS, vec![(base + 1, b"first revision"), (base + 1, b"second revision")]).await;
+            put_many(&a, &mut e, KS, vec![(base + 2, b"a"), (base + 3, b"b"), (base + 2, b"c")]).await;
             // rewritten at once, and rewritten by another node
-            a.put(base + 4, b"one".to_vec(), lv).await.expect("put");
-            a.put(base + 4, b"two".to_vec(), lv).await.expect("put");
-            a.put(base + 5, b"from a".to_vec(), lv).await.expect("put");
-            b.put(base + 5, b"from b".to_vec(), lv).await.expect("put");
+            put(&a, &mut e, KS, base + 4, b"one").await;
+            put(&a, &mut e, KS, base + 4, b"two").await;
+            put(&a, &mut e, KS, base + 5, b"from a").await;
+            put(&b, &mut e, KS, base + 5, b"from b").await;
             // bulk write then bulk delete of a part, delete then write again
-            a.put_many(vec![(base + 6, b"x".to_vec()), (base + 7, b"y".to_vec()), (base + 8, b"z".to_vec())], lv).await.expect("put_many");
-            a.del_many(vec![base + 6, base + 8], lv).await.expect("del_many");
-            b.put(base + 9, b"soon gone".to_vec(), lv).await.expect("put");
-            b.del(base + 9, lv).await.expect("del");
-            b.put(base + 9, b"back again".to_vec(), lv).await.expect("put");
-            ids.extend((1..=9).map(|i| (KS, base + i)));
-            let lv = Consistency::None;
-            b2.put_many(vec![(base + 1, b"other keyspace".to_vec()), (base + 4, b"four".to_vec()), (base + 6, b"six".to_vec())], lv).await.expect("put_many");
-            a2.del(base + 4, lv).await.expect("del");
-            a2.put(base + 5, b"only here".to_vec(), lv).await.expect("put");
-            b2.del_many(vec![base + 1, base + 9], lv).await.expect("del_many");
-            a2.put(base + 9, b"after its delete".to_vec(), lv).await.expect("put");
-            ids.extend([1u64, 4, 5, 6, 9].iter().map(|i| (KS2, base + i)));
+            put_many(&a, &mut e, KS, vec![(base + 6, b"x"), (base + 7, b"y"), (base + 8, b"z")]).await;
+            del_many(&a, &mut e, KS, vec![base + 6, base + 8]).await;
+            put(&b, &mut e, KS, base + 9, b"soon gone").await;
+            del(&b, &mut e, KS, base + 9).await;
+            put(&b, &mut e, KS, base + 9, b"back again").await;
+            put_many(&b2, &mut e, KS2, vec![(base + 1, b"other keyspace"), (base + 4, b"four"), (base + 6, b"six")]).await;
+            del(&a2, &mut e, KS2, base + 4).await;
+            put(&a2, &mut e, KS2, base + 5, b"only here").await;
+            del_many(&b2, &mut e, KS2, vec![base + 1, base + 9]).await;
+            put(&a2, &mut e, KS2, base + 9, b"after its delete").await;
+            // third node: writes in the second keyspace, then deletes the same ids in the first one
+            put(&c2, &mut e, KS2, base + 7, b"seven, second keyspace").await;
+            put_many(&c2, &mut e, KS2, vec![(base + 3, b"three, second keyspace"), (base + 2, b"two, second keyspace")]).await;
+            del(&c, &mut e, KS, base + 7).await;
+            del_many(&c, &mut e, KS, vec![base + 3, base + 2]).await;
             if r + 1 == rounds {
-                b3.put(base + 1, b"late keyspace".to_vec(), lv).await.expect("put");
-                b3.put_many(vec![(base + 2, b"l2".to_vec()), (base + 3, b"l3".to_vec())], lv).await.expect("put_many");
-                b3.del(base + 2, lv).await.expect("del");
-                ids.extend([1u64, 2, 3].iter().map(|i| (KS3, base + i)));
+                put(&b3, &mut e, KS3, base + 1, b"late keyspace").await;
+                put_many(&b3, &mut e, KS3, vec![(base + 2, b"l2"), (base + 3, b"l3")]).await;
+                del(&b3, &mut e, KS3, base + 2).await;
             }
             tokio::time::sleep(Duration::from_millis(300)).await;
         }
+        let ops = std::mem::take(&mut *OPS.lock().unwrap());
+        for mut op in ops {
+            op["layout"] = json!(layout);
+            writeln!(f, "{}", op).unwrap();
+        }
         // polled for up to 40 s so that a slow machine cannot turn this into a timing verdict
-        let mut finals: Vec<((&str, u64), Vec<Option<(u64, bool, String)>>)> = vec![];
+        let mut finals: Vec<((&str, u64), Vec<Option<(u64, bool, String)>>, bool)> = vec![];
         for _ in 0..80 {
             finals.clear();
-            let mut all_equal = true;
-            for id in &ids {
+            let mut all_good = true;
+            for (key, want) in e.iter() {
                 let mut row = vec![];
                 for m in &members {
-                    row.push(held_full(m, id.0, id.1).await);
+                    row.push(held_full(m, key.0, key.1).await);
                 }
-                if row.iter().any(|x| *x != row[0]) || row[0].is_none() {
-                    all_equal = false;
+                let equal = row.iter().all(|x| *x == row[0]);
+                let as_expected = row.iter().all(|x| match (x, want) {
+                    (Some((_, false, d)), Some(w)) => d == w,
+                    (Some((_, true, _)), None) | (None, None) => true,
+                    _ => false,
+                });
+                if !equal || !as_expected {
+                    all_good = false;
                 }
-                finals.push((*id, row));
+                finals.push((*key, row, as_expected));
             }
-            if all_equal {
+            if all_good {
                 break;
             }
             tokio::time::sleep(Duration::from_millis(500)).await;
         }
-        for (id, row) in finals {
+        for (id, row, as_expected) in finals {
             docs += 1;
-            let equal = row.iter().all(|x| *x == row[0]) && row[0].is_some();
-            writeln!(f, "{}", json!({"ev": "final", "layout": layout, "ks": id.0, "id": id.1, "all_equal": equal,
+            let equal = row.iter().all(|x| *x == row[0]);
+            writeln!(f, "{}", json!({"ev": "final", "layout": layout, "ks": id.0, "id": id.1, "all_equal": equal, "as_expected": as_expected,
+                "expected": e[&id].clone().map(|d| json!(["put", d])).unwrap_or(json!(["delete"])),
                 "nodes": row.iter().map(|x| match x { Some((ts, tomb, dig)) => json!([ts.to_string(), tomb, dig]), None => json!([]) }).collect::<Vec<_>>()})).unwrap();
         }
         drop(members);
